@@ -9,7 +9,7 @@ from common import hexs
 
 META = {
     "property": "C08",
-    "proof_modules": ["PyodaProofs.C08", "PyodaProofs.C08Create", "PyodaProofs.C08Stepped", "PyodaProofs.C08StepsWF", "PyodaProofs.C08DateTime", "PyodaProofs.C08DateTimeWF", "PyodaProofs.C08Segmented", "PyodaProofs.C08Calendar", "PyodaProofs.C08CalendarSeg", "PyodaProofs.C08CalendarTop", "PyodaProofs.C08Instant"],
+    "proof_modules": ["PyodaProofs.C08", "PyodaProofs.C08Create", "PyodaProofs.C08Stepped", "PyodaProofs.C08StepsWF", "PyodaProofs.C08DateTime", "PyodaProofs.C08DateTimeWF", "PyodaProofs.C08Segmented", "PyodaProofs.C08Calendar", "PyodaProofs.C08CalendarSeg", "PyodaProofs.C08CalendarTop", "PyodaProofs.C08Instant", "PyodaProofs.GenAgreeC07N"],
     "drivers": ["drv_text"],
     "theorems": [
         "Pyoda.C08.parseDigits_total",
@@ -138,11 +138,29 @@ META = {
         "Pyoda.C08.dateResult_iso",
         "Pyoda.C08.daysOfDate_inCal",
         "Pyoda.C08.parseInstant_spec",
+        # agreement of the definitions generated from the Python source (tools/py2lean.py) with the model
+        "Pyoda.GenAgree.C07N.gen_FormatHelper_leftPadNonNegative_eq",
+        "Pyoda.GenAgree.C07N.gen_FormatHelper_leftPadNonNegative_dom",
+        "Pyoda.GenAgree.C07N.gen_FormatHelper_format2DigitsNonNegative_eq",
+        "Pyoda.GenAgree.C07N.gen_FormatHelper_format4DigitsValueFits_eq",
+        "Pyoda.GenAgree.C07N.gen_FormatHelper_leftPad_eq", "Pyoda.GenAgree.C07N.gen_FormatHelper_appendFraction_eq",
+        "Pyoda.GenAgree.C07N.gen_FormatHelper_formatInvariant_eq",
+        "Pyoda.GenAgree.C07N.gen_FormatHelper_appendFractionTruncate_eq", "Pyoda.GenAgree.C07N.gen_Cursor_length_eq",
+        "Pyoda.GenAgree.C07N.gen_Cursor_value_eq", "Pyoda.GenAgree.C07N.gen_Cursor_index_eq",
+        "Pyoda.GenAgree.C07N.gen_Cursor_current_eq", "Pyoda.GenAgree.C07N.gen_Cursor_hasMoreCharacters_eq",
+        "Pyoda.GenAgree.C07N.gen_Cursor_move_eq", "Pyoda.GenAgree.C07N.gen_Cursor_moveNext_eq",
+        "Pyoda.GenAgree.C07N.gen_Cursor_movePrevious_eq", "Pyoda.GenAgree.C07N.gen_Cursor_parseDigits_eq",
+        "Pyoda.GenAgree.C07N.gen_Cursor_parseFraction_eq", "Pyoda.GenAgree.C07N.gen_Cursor_matchText_eq",
+        "Pyoda.GenAgree.C07N.gen_Cursor_getDigit_eq", "Pyoda.GenAgree.C07N.gen_Cursor_remainder_eq",
+        "Pyoda.GenAgree.C07N.gen_Cursor_peekNext_eq", "Pyoda.GenAgree.C07N.gen_StringBuilder_length_eq",
+        "Pyoda.GenAgree.C07N.gen_StringBuilder_getitem_eq", "Pyoda.GenAgree.C07N.gen_StringBuilder_toString_eq",
     ],
     "trusted_base": [
+        "translator tie (tools/py2lean.py; GenAgreeC07N, builder T4): what Python's str operations mean is PyodaGen/TextSupport.lean — a str is the list of its code points, s[i] a character (negative indices from the end, IndexError outside), slices with Python's clamping, f\"{v:0N}\" / f\"{v:0{n}d}\" sign-aware zero padding (ValueError for n < 0), f\"{v:0>{n}}\" fill-right (a negative n = -k reads as sign option + width k), str(int), c.isdigit() as the table of CPython's 808 digit code points, int(c) only for '0'..'9', int(a * math.pow(10.0, k)) as the exact integer a*10^k ONLY where the double computation is exact (0 <= k <= 22, 0 <= a, a*10^k < 2^53) — outside these ranges, and for format widths above INT_MAX, the generated code answers 'outside the modelled domain'; all of it is compared with CPython on every run of the C03 check (tools/py2lean_selftest.py text_selftest: 25 corpus functions, every code point for isdigit, 21 must-refuse programs). The StringBuilder (append, length, item, length setter) and the four cursor attributes are explicit state (PyodaGen/GlueC07N.lean, the StringBuilder operations hand-written from _string_builder.py); the cursor methods themselves are translated",
         "str indexing inside _ValueCursor is guarded by the cursor's own length checks (modelled as list operations)",
     ],
     "partial": [
+        "translator tie covers the numeric core only: _FormatHelper (_left_pad_non_negative, _format_2_digits_non_negative, _format_4_digits_value_fits, _left_pad, _append_fraction, _append_fraction_truncate, _format_invariant) and _TextCursor/_ValueCursor (length, value, current, index, has_more_characters, remainder, peek_next, move, move_next, move_previous, _match, _parse_digits, _parse_fraction, __get_digit), each proved equal to the model of PyodaModel/Text/Numeric.lean on cursor states VC.at v i (text v, index i; remaining text v.drop i). Hypotheses: widths <= INT_MAX; |value| < 10^27 where _towards_zero_division (Decimal) is used; _parse_fraction for maximum_digits <= scale <= 15 (where the float scaling is exact); cursor index inside 0..len for the scanning functions. Outside the tie (refused by the translator, correspondence only): _parse_int64 and __build_number_out_of_range_result (walrus over a raising call under `and` in the loop test; ParseResult objects carrying formatted messages), _match_case_insensitive (str.lower), _compare_ordinal (str ordering of whole strings), __str__, the pattern compiler and every step built on top of these primitives",
         "parse_total / success_valid are proved for the modelled parsers only (numeric primitives; ISO date, ISO times, ISO date-times incl. 24:00 roll-over, offset g/G), which model the REPAIRED behaviour (year range check in the ISO fast path, Offset range check, OverflowError of plus_days mapped to a failure, end-of-text by index); on the unrepaired tree the correspondence suite text.iso.parse and the direct oracles report the four defects",
         "pattern creation: compile_total is proved for EVERY pattern text of LocalTime, LocalDate (ISO template), Offset, LocalDateTime (ISO template value; embedded ld<...>/lt<...> patterns included: Pat.segmented), AnnualDate (any template) and Duration patterns, and for the Instant adapter (compileInstant_total) — custom texts, standard letters, Z prefix, composites — tied to the real builders by suite text.pat.compile (outcome class, used-field mask, number of actions); the sample formatting done at construction and non-ISO template calendars are covered by the malformed-pattern oracle only",
         "generic engine (tied to the code by suites text.pat.compile/fmt/parse): parse_total and success_value_valid hold for EVERY accepted LocalTime, Offset and Duration pattern text in every culture record (time_/offset_/duration_parse_total, time_/offset_/duration_success_valid: a Duration success lies between min_value and max_value) and for EVERY accepted AnnualDate pattern text and template (annual_parse_total; annual_success_valid under monthHeadsEmpty); success_value_valid holds for EVERY accepted LocalDate pattern text (default template) and every accepted LocalDateTime / Instant pattern text (any valid ISO template value; 24:00 roll-over included; embedded parts: next item) in every culture record whose month-name tables start with the empty entry of index 0 (date_success_valid, datetime_success_valid, instant_success_valid; hypothesis monthHeadsEmpty evaluated per run on the sampled cultures, failing cultures listed in the notes); parse_total for LocalDate/LocalDateTime/Instant holds for every compiled pattern without the calendar field (date_parse_total, datetime_parse_total: era, month/day names, am/pm and embedded ld<...>/lt<...> patterns included: parseSegmented_total)",
